@@ -63,6 +63,8 @@ pub struct Profile {
     pub net_faults: bool,
     pub small_caches: bool,
     pub long_chains: bool,
+    /// staged work is also replayed on *other* replicas (cross-replica `replay_stage`)
+    pub foreign_stage: bool,
 }
 
 fn base_weights() -> [u32; K::N as usize] {
@@ -99,6 +101,7 @@ pub fn profile_for(prop: &str, variant: u64) -> Profile {
         net_faults: true,
         small_caches: true,
         long_chains: false,
+        foreign_stage: false,
     };
     let w = &mut p.w;
     match prop {
@@ -203,6 +206,15 @@ pub fn profile_for(prop: &str, variant: u64) -> Profile {
             w[K::Resolve as usize] = 1;
             w[K::Exchange as usize] = 16;
             p.replicas = (2, 4);
+            if variant % 3 == 1 {
+                // concurrent versions also arrive as replayed stage exports of other replicas
+                p.name = "array-merge-foreign-stages";
+                p.foreign_stage = true;
+                w[K::StageSave as usize] = 2;
+                w[K::StageRestore as usize] = 8;
+                w[K::RoundTrip as usize] = 5;
+                w[K::Read as usize] = 6;
+            }
         }
         "C07" => {
             p.name = "resolution";
@@ -356,6 +368,12 @@ pub fn profile_for(prop: &str, variant: u64) -> Profile {
             p.len = (10, 60);
             p.long_chains = true;
             p.converge_end = 10;
+            if variant % 3 == 1 {
+                p.name = "array-chains-foreign-stages";
+                p.foreign_stage = true;
+                w[K::StageSave as usize] = 2;
+                w[K::StageRestore as usize] = 10;
+            }
         }
         "C17" => {
             p.name = "real-backends";
@@ -893,7 +911,13 @@ impl Gen {
                 }
             }
             x if x == K::StageSave as usize => vec![Op::StageSave { r, keep: self.rng.chance(1, 3) }],
-            x if x == K::StageRestore as usize => vec![Op::StageRestore { r, older: false }],
+            x if x == K::StageRestore as usize => {
+                if self.prof.foreign_stage && other != r && self.rng.chance(2, 3) {
+                    vec![Op::StageForeign { r, from: other }]
+                } else {
+                    vec![Op::StageRestore { r, older: false }]
+                }
+            }
             x if x == K::TravelRedo as usize => {
                 if w.replicas[r].time_travel {
                     vec![Op::Reload { r }]
